@@ -24,7 +24,7 @@ def gen_cases(tier, seed):
 
 def run_case(case):
     rng = gen.rng_for("C04", case["seed"])
-    sc = scen.gen_scenario(rng, nsteps=rng.randint(1, 12), big=rng.random() < 0.05, fails=True, long_cmds=True, dirs=True)
+    sc = scen.gen_scenario(rng, nsteps=rng.randint(1, 12), big=rng.random() < 0.05, fails=True, long_cmds=True, dirs=True, hist=True)
     sc["dims"]["early_close"] = rng.random() < 0.4
     # pull with a callback opens a nested STAT stream: make it frequent
     for st in sc["steps"]:
@@ -60,6 +60,7 @@ def run_case(case):
         stats["long_commands"] = sum(1 for (st_, o, _) in res if len(st_.get("cmd", "")) > 1000)
         stats["slow_link_cases"] = 1 if slow else 0
         stats["total_limit_expired"] = sum(1 for (st_, o, _) in res if st_.get("timeout_s") is not None and not o.ok)
+        stats["reconnects_in_history"] = sum(1 for (st_, o, _) in res if st_["op"] == "reconnect")
         stats["directory_pushes"] = sum(1 for (st_, o, _) in res if st_["op"] == "pushdir")
         stats["directory_pushes_with_unreadable_entry"] = sum(1 for (st_, o, _) in res if st_["op"] == "pushdir" and any(k == "dangling" for (_, _, k) in st_["files"]))
         stats["sync_service_died"] = sum(1 for (st_, o, _) in res if st_.get("dies"))
